@@ -22,13 +22,14 @@ PROPS["C05"] = dict(
     technique="Lean 4 theorems (bit helpers = arithmetic incl. C forms generated from bitstring.h over BitVec 64; "
               "single-excitation entries = Spec ladder action; injectivity; Z-matrix closed form, address = lexical "
               "rank and string table = lexical k-subsets for all (n, k); the generated Gosper step and the C "
-              "generator loop = k-subsets in numeric order for all norb <= 63; operator-string loop = ladder product) "
+              "generator loop = k-subsets in numeric order for all norb <= 63; operator-string loop and k-fold annihilation "
+              "maps = ladder products with the kernels' sign) "
               "+ exhaustive table correspondence with the Lean model on both code paths",
     text="Machine-checked theorems for all word values / positions / strings / (norb, nele) about the bit helpers "
          "(Python forms and the C forms translated from bitstring.h and bitstring.c on every run), the string "
          "generators (reference enumerations, Gosper's hack on 64-bit words), Knowles-Handy addressing, the string "
-         "table, the single-excitation tables and the operator-string maps; the k-fold cross-sector maps and the "
-         "de-excitation rows are executable Lean models compared entry by entry with the real library for every "
+         "table, the single-excitation tables, the operator-string maps and the k-fold annihilation maps between "
+         "sectors; the de-excitation rows and the sector linking are executable Lean models compared entry by entry with the real library for every "
          "(norb<=6/9, nele) and the 31..64 orbital boundary families.",
     note="Lean kernel; translator cbits.py gives C uint64_t the meaning BitVec 64 and __builtin_popcountll the "
          "meaning 'number of set bits'; that the real builders execute the modelled loops is established by the "
